@@ -308,8 +308,11 @@ def gen_history(rng, maxops):
                     tm = [['pred', 'ident']]
             if kind == 'share' and rng.random() < 0.7:
                 tm = None
-            ops.append(['create', path, matching, rng.choice(SRCS) if rng.random() < 0.15 else None,
-                        rng.choice([None, None, None, None, None, None, 0, 1, 'zero']), tm, new_fn()])
+            src = rng.choice(SRCS) if rng.random() < 0.2 else None
+            rif = rng.choice([None, None, None, None, None, None, 0, 1, 'zero'])
+            if src is not None and rng.random() < 0.5:
+                rif = rng.choice([0, 0, 1, 'zero'])          # both filters: a different wrapper class
+            ops.append(['create', path, matching, src, rif, tm, new_fn()])
             if path != '':
                 used.append(path if path[0] == '/' else '/' + path)
                 n += 1
@@ -343,6 +346,25 @@ def gen_history(rng, maxops):
                 d = enc_bundle(tt, elems)[0]
             ops.append(['dgram', d.hex(), rng.choice(SENDERS), rng.choice([0, 0, 1])])
     return ops
+
+
+def matrix_histories(rng):
+    """Filter-combination matrix.  Which wrapper class guards a responder depends on the COMBINATION of its
+    filters (none / src_id / recv_port / both, each with or without an argument template), so every
+    combination of dispatcher kind x source filter x receive-port filter x template is created, and every
+    group of responders gets messages from every sender on both interfaces, with arguments that pass and
+    that fail the template: each single condition is seen accepting and rejecting while the others accept."""
+    combos = [(m, src, rif, tm) for m in (False, True) for src in SRCS for rif in (None, 0, 1, 'zero')
+              for tm in (None, [['eq', ['i', '1']]], [None, ['eq', ['s', list(b'x')]]])]
+    rng.shuffle(combos)
+    hs = []
+    for g in range(0, len(combos), 8):
+        ops = [['create', '/a', m, src, rif, tm, {'tag': k}] for k, (m, src, rif, tm) in enumerate(combos[g:g + 8])]
+        for snd in SENDERS:
+            for iface in (0, 1):
+                ops.append(['dgram', enc_msg('/a', rng.choice([[('i', 1), ('s', 'x')], [('i', 1)], [('i', 2), ('s', 'x')], []]))[0].hex(), snd, iface])
+        hs.append(ops)
+    return hs
 
 
 def fn(tag, **kw):
@@ -761,7 +783,7 @@ def free_port_base(rng):
 
 def corr_rt(ctx, c):
     rng = ctx.rng
-    hists = list(FIXED_HISTORIES) + [gen_history(rng, rng.choice([8, 14, 22])) for _ in range(ctx.n(300, 3000))]
+    hists = list(FIXED_HISTORIES) + matrix_histories(rng) + [gen_history(rng, rng.choice([8, 14, 22])) for _ in range(ctx.n(280, 3000))]
     corpus = os.path.join(fw.VERIF, 'corpus', 'C18_histories.json')
     if os.path.exists(corpus):
         hists = json.load(open(corpus)) + hists
@@ -982,6 +1004,11 @@ def search(ctx, failures):
             if dev:
                 extra.append(Failure('search', 'responder history %s: at operation %d %s' % (json.dumps(rp['ops']), dev[0], dev[1]),
                                      found_input=True, theorem='dispatch_exact / disabled_freed_oneshot_never', replay=rp))
+        elif rp.get('kind') == 'registry' and 'history' in rp:
+            dev = c18_ref.check_registry(rp['history'], rp['impl'])
+            if dev:
+                extra.append(Failure('search', 'registry history %s: at operation %d %s' % (json.dumps(rp['history']), dev[0], dev[1]),
+                                     found_input=True, theorem='registry_runs_current_in_order', replay=rp))
         elif rp.get('kind') == 'dgram':
             o, dc = rp['impl'], rp['case']
             data = bytes.fromhex(dc['hex'])
